@@ -864,7 +864,7 @@ fn gen(tier: &str, seed: u64, out: &mut dyn FnMut(String)) {
         }
     } }
     // (iv) seeded random chains
-    let (n_chains, max_len) = if thorough { (60000, 40) } else { (7000, 12) };
+    let (n_chains, max_len) = if thorough { (60000, 40) } else { (20000, 12) };
     let ops = all_ops();
     let mut top = Rng::new(seed ^ 0x5EED_C01);
     for c in 0..n_chains {
